@@ -337,3 +337,22 @@ CHECKS["C06"] = {
          "checks_quick": 400, "checks_thorough": 10000, "shards_quick": 4, "shards_thorough": 16, "timeout_quick": 400, "timeout_thorough": 2400},
     ],
 }
+
+CHECKS["C10"] = {
+    "level": "exploration",
+    "technique": "property-based testing of put sequences under generated eviction limits with white-box per-partition bounds after every Put, and of access patterns around the idle window with measured gaps (rapid)",
+    "level_text": ("limits: on in-process clusters (1-2 members, R 1-2, 7/13/31 partitions) with LRU eviction and MaxKeys 1-60 (including values below the partition count) or MaxInuse for equally sized entries, LRUSamples 1-10, "
+                   "50-300 Puts with uniform or skewed key distributions (keys pre-bucketed by partition) and interleaved Gets: no Put may fail, the key just written must be readable, and after every Put every owned partition holds at most max(1, MaxKeys/owned) keys, "
+                   "the member at most max(MaxKeys, owned) keys, and at most MaxInuse/owned bytes plus one entry per partition. "
+                   "idle: with MaxIdleDuration 150/250 ms, keys accessed (Get or Put) every third of the window must never be missing while the measured gaps stay 20 ms inside the window; keys left untouched for more than the window plus 20 ms must be gone "
+                   "from the owner and from every backup owner after one explicit eviction scan of their fragment (checked white box, without reading them)."),
+    "level_note": "trusted: wall-clock gaps measured in the harness with a 20 ms guard; 'eventually disappears' is decided for an explicitly invoked eviction scan (how soon the randomised background worker reaches a partition is not asserted)",
+    "rule": "limits: non-trivial = an eviction happened (a partition reached its share), or MaxKeys < partition count, or a skewed distribution. idle: non-trivial = at least one key was left idle past the window. distinct = distinct case hash",
+    "assumptions": ["membership stable"],
+    "parts": [
+        {"name": "limits", "pkg": ROOT, "test": "TestVerifC10Limits", "kind": "rapid",
+         "checks_quick": 30, "checks_thorough": 800, "shards_quick": 8, "shards_thorough": 16, "timeout_quick": 400, "timeout_thorough": 2400},
+        {"name": "idle", "pkg": ROOT, "test": "TestVerifC10Idle", "kind": "rapid",
+         "checks_quick": 8, "checks_thorough": 200, "shards_quick": 8, "shards_thorough": 16, "timeout_quick": 400, "timeout_thorough": 2400},
+    ],
+}
